@@ -57,10 +57,10 @@ def _strategy(maxW: int):
                 st_["mask"] = [True] + [draw(st.booleans()) for _ in range(npar - 1)]
                 steps.append(st_)
         dc.st_param_edits(draw, steps, len(shapes))
-        return {"flavour": "ddp", "R": W, "S": 1, "G": G, "comm_params": draw(st.booleans()), "comm_dtype": draw(st.sampled_from(["default", "fp32", "fp16", "bf16"])),
+        return dc.st_exponent_range_class(draw, {"flavour": "ddp", "R": W, "S": 1, "G": G, "comm_params": draw(st.booleans()), "comm_dtype": draw(st.sampled_from(["default", "fp32", "fp16", "bf16"])),
                 "cfg": cfg, "shapes": shapes, "pseed": draw(st.integers(0, 10**5)), "steps": steps, "repair": True,
                 "pdtypes": (draw(st.one_of(st.lists(st.sampled_from(["bf16", "f32", "f32", "f16"]), min_size=len(shapes), max_size=len(shapes)), st.just(["f16"] * len(shapes))))
-                            if (draw(st.sampled_from([False] * 4 + [True])) and cfg["pdtype"] in ("f32", "bf16")) else None)}
+                            if (draw(st.sampled_from([False] * 4 + [True])) and cfg["pdtype"] in ("f32", "bf16")) else None)})
 
     return case()
 
